@@ -192,4 +192,21 @@ theorem replica_reopen_exact (C : Crypto) (hC : TreeStore.HashWF C) (hT : TreeSt
     rw [this] at h2
     exact h2.symm
 
+/-- **replicas across crashes**: in every state reachable from a created replica by first contact, honest exchanges
+    (upgrade, block, hash, block + upgrade in one proof), close/reopen steps and crashes at any storage operation of any
+    of these applications followed by a reopen (`ReplicaCrash.Reach`, unbounded), `has` is exactly the held set of a
+    prefix of the writer's log and the contiguous hint is the first index not held — in particular after a crash between
+    the bitfield pages and the header of a flush, where the bitfield store is ahead of the replayed hint -/
+theorem replica_crash_exact (C : Crypto) (hC : TreeStore.HashWF C) (hT : TreeStore.TreeWF C) (bs : Array Bytes)
+    (hs : bs.size < 2 ^ 62 ∧ Offsets.psum bs bs.size < 2 ^ 64) (pk : Bytes) (hpk : pk.length = 32) :
+    ∃ c j, Core.openCore C (some (pk, none)) {} = .ok (c, j) ∧ ReplicaCrash.Reach C bs pk 0 (c, ({} : Disk).applyAll j)
+      ∧ ∀ s, ReplicaCrash.Reach C bs pk 0 s →
+          ∃ (m : Nat) (held : Nat → Bool), m ≤ bs.size ∧ (∀ i, s.1.has i = held i) ∧ (∀ i, held i = true → i < m)
+            ∧ (∀ i, i < s.1.info.contiguous → s.1.has i = true) ∧ s.1.has s.1.info.contiguous = false := by
+  obtain ⟨c, j, e1, e2, e3⟩ := C02.replica_survives_crashes C hC hT bs hs pk hpk
+  refine ⟨c, j, e1, e2, fun s hs' => ?_⟩
+  obtain ⟨m, held, hm, hsh, hrp, _, _⟩ := e3 s hs'
+  obtain ⟨_, _, _, _, hhas, hfm⟩ := hsh
+  exact ⟨m, held, hm, hhas, hrp.rep.heldLt, fun i hi => by simpa [Core.has] using hfm.1 i hi, by simpa [Core.has] using hfm.2⟩
+
 end HC.C08
